@@ -197,6 +197,19 @@ CHECKS['C11'] = dict(
     note='Counts come from the catalogue\'s own expander (bracex.expand without limit on small shapes); bracex is trusted to '
          'honour the limit it is given.')
 
+CHECKS['C19'] = dict(
+    level='exploration', engine='SEQ', design='6 C19',
+    technique='exhaustive enumeration of call sequences over a collision-designed pool against fresh-interpreter reference '
+              'values; controlled two-thread scheduler (sys.settrace events + baton) exploring the default schedule and every '
+              'schedule with one preemption; pairwise object equality / language comparison',
+    text='All sequences of length <= 3 (thorough 4) over 30 call tuples + FLOOD (260 distinct patterns, more than the cache '
+         'holds): every value equals the value of the same call in a fresh interpreter; all ordered pairs of calls on two '
+         'threads with every single preemption at call granularity (and at line granularity for the pure-matching sub-pool); '
+         '117 matcher configurations: twins ==/hash-equal, == implies equal behaviour, inner flags and language, '
+         'pickle/copy/deepcopy round trips, immutability, reuse.',
+    note='Scheduling points are Python-level events inside wcmatch/*.py; C code (re, lru_cache) is atomic under the '
+         'interpreter lock; preemption bound 1.')
+
 PENDING = {}
 
 
